@@ -456,7 +456,8 @@ func TestVerifC06(t *testing.T) {
 	rapid.Check(t, func(t *rapid.T) {
 		var c c06Case
 		c.FullInit = rapid.Bool().Draw(t, "fullinit")
-		c.Ops = rapid.SliceOfN(rapid.Custom(c06GenOp), 1, vlib.Scale(40, 120)).Draw(t, "ops")
+		minOps := rapid.SampledFrom([]int{1, 1, 6, 16, 30}).Draw(t, "minops")
+		c.Ops = rapid.SliceOfN(rapid.Custom(c06GenOp), minOps, vlib.Scale(40, 120)).Draw(t, "ops")
 		fail, rs := c06Run(c)
 		var labels []string
 		if rs.recoveredShared {
